@@ -265,6 +265,18 @@ pub fn gen_scen(rng: &mut Rng, _thorough: bool) -> Scen {
             // budget run, fast children, some rejections
             let n = 1 + rng.below(10) as usize;
             let mut sc = base_scen("budget");
+            if rng.chance(1, 4) {
+                // a long stochastic run: from 20 individuals on, individuals are re-evaluated (new seeds for old ids); the
+                // budget still counts every start, every child gets its own seed, stdout is still one line
+                let n = 50 + rng.below(40) as usize;
+                let k = 2 + rng.below(2) as usize;
+                let mut sc = base_scen("sampled");
+                sc.opts = vec![s("-n"), n.to_string(), s("--sample-size"), k.to_string(), s("--num-concurrent"), (1 + rng.below(2)).to_string()];
+                sc.plan = json!({"default": {"value_of_seed": "pos"}});
+                sc.out_dir = *rng.pick(&[0, 1]);
+                sc.expect = json!({"exit": "ok", "starts": n, "survivors": 0, "accepted": n, "rejected": 0, "argv": true});
+                return sc;
+            }
             sc.opts = vec![s("-n"), n.to_string(), s("--num-concurrent"), nc.to_string()];
             let mut seeds = serde_json::Map::new();
             let mut acc = 0;
@@ -324,7 +336,7 @@ pub fn gen_scen(rng: &mut Rng, _thorough: bool) -> Scen {
                                            5 => json!({"wait": true, "stdout": "{\"objFuncVal\": 1}\nTraceback (most recent call last):\n"}),
                                            6 => json!({"wait": true, "stdout": "{\"objFuncVal\": 1} {\"objFuncVal\": 2}"}),
                                            // a child that printed a valid result and then died from a signal did not succeed
-                                           7 => json!({"wait": true, "stdout": "{\"objFuncVal\": 1}", "self_signal": *rng.pick(&[11, 6, 9])}),
+                                           7 => json!({"wait": true, "stdout": "{\"objFuncVal\": 1}", "self_signal": *rng.pick(&[11, 6, 9, 40, 64])}),     // 40, 64: real-time signals
                                            2 => json!({"wait": true, "stdout": "{\"objFuncVal\": 1, \"extra\": 2}"}), 3 => json!({"wait": true, "stdout": ""}), _ => json!({"wait": true, "stdout": "{\"objFuncVal\": 1e999}"}) };
             let failing = rng.below(nc as u64);
             let mut seeds = serde_json::Map::new();
@@ -405,7 +417,7 @@ pub fn gen_scen(rng: &mut Rng, _thorough: bool) -> Scen {
         10 | 11 => {
             // invalid options / inputs: rejected before any evaluation
             let mut sc = base_scen("cli-invalid");
-            let which = rng.below(10);
+            let which = rng.below(11);
             sc.opts = match which {
                 0 => vec![s("-n"), s("3"), s("--num-concurrent"), s("0")],
                 1 => vec![s("-n"), s("3"), s("--sample-size"), s("0")],
@@ -414,6 +426,7 @@ pub fn gen_scen(rng: &mut Rng, _thorough: bool) -> Scen {
                 4 => vec![s("-n"), s("3"), s("--initial-guess"), s("{not json")],
                 5 => vec![s("-n"), s("3"), s("--initial-guess"), s("7.5")],
                 6 => vec![s("-n"), s("3"), s("--initial-guess"), s("\"text\"")],
+                10 => vec![s("-n"), s("3"), s("--initial-guess"), s("null")],     // the spec's root is a real: null does not conform
                 9 => vec![s("-n"), s("3"), s("--initial-guess"), s(*rng.pick(&["{\"1\":true,\"01\":false}", "{\"+2\":true,\"2\":true}", "{\"7\":true}"]))],
                 _ => vec![s("-n"), s("3")],
             };
@@ -441,10 +454,25 @@ pub fn gen_scen(rng: &mut Rng, _thorough: bool) -> Scen {
             sc.opts = vec![s("-n"), s("3")];
             if rng.chance(1, 2) { sc.opts.push(s("--sample-size")); sc.opts.push(s("2")); }
             if verbose { sc.opts.push(s("--verbose")); }
-            let out = match rng.below(9) {
+            if rng.chance(1, 3) {
+                // a discrete space with a resizable map, 40 evaluations one at a time, objective a function of the seed:
+                // the verbose twin must evaluate the very same parameter sets and print the same line
+                let mut sc = base_scen("outputs");
+                sc.spec_yaml = "flags:\n  type: anon map\n  initSize: 2\n  valueType:\n    type: bool\n    init: false\nmode:\n  type: enum\n  values: [a, b, c]\n  init: a\non:\n  type: bool\n  init: true\n".into();
+                sc.opts = vec![s("-n"), s("40")];
+                if verbose { sc.opts.push(s("--verbose")); }
+                sc.plan = json!({"default": {"value_of_seed": *rng.pick(&["pos", "neg", "const"])}});
+                sc.out_dir = *rng.pick(&[0, 1]);
+                sc.expect = json!({"noCrash": true, "survivors": 0, "verbose": verbose, "starts": 40});
+                return sc;
+            }
+            let out = match rng.below(11) {
                 0 => json!({"stdout": "{\"objFuncVal\": 1.5}"}), 1 => json!({"stdout": "{\"objFuncVal\": null}"}), 2 => json!({"stdout": "{}"}),
                 3 => json!({"stdout": "{\"objFuncVal\": 2}", "pad": 1_000_000}), 4 => json!({"stdout_hex": "fffe00"}), 5 => json!({"stdout": "{\"objFuncVal\": "}),
-                6 => json!({"stdout": ""}), 7 => json!({"stdout": "{\"objFuncVal\": -1e300}"}), _ => json!({"stdout": "[1]"}),
+                6 => json!({"stdout": ""}), 7 => json!({"stdout": "{\"objFuncVal\": -1e300}"}),
+                // a child that answers and is then killed by a signal (no exit code to report)
+                9 => json!({"stdout": "{\"objFuncVal\": 1.5}", "self_signal": *rng.pick(&[9, 11, 40])}), 10 => json!({"stdout": "", "self_signal": 6}),
+                _ => json!({"stdout": "[1]"}),
             };
             let err = match rng.below(6) { 0 => json!(""), 1 => json!(hex(b"some warning\n")), 2 => json!("fffefd80"), 3 => json!(hex(&vec![b'x'; 100_000])),
                 _ => {
@@ -484,7 +512,7 @@ pub fn gen_case(rng: &mut Rng, thorough: bool, case: u64) -> J {
         let t = run_scen(&twin, case + 1_000_000);
         line["twin"] = json!({"opts": twin.opts, "obs": {"exitCode": t["obs"]["exitCode"], "signal": t["obs"]["signal"], "hang": t["obs"]["hang"],
                                 "stdoutLines": t["obs"]["stdoutLines"], "stderrPanic": t["obs"]["stderrPanic"], "stderrTail": t["obs"]["stderrTail"], "survivors": t["obs"]["survivors"],
-                                "files": t["obs"]["files"]}});
+                                "files": t["obs"]["files"], "argvJson": t["obs"]["derived"]["argvJson"]}});
     }
     line
 }
